@@ -213,13 +213,17 @@ def applyOp (cap dim : Nat) (net : Net) : Op → Net
 def elitismAdd (norm : List Int → List Int) (cap : Nat) (xs new : List Int) : List Int :=
   (norm (xs ++ new)).take cap
 
-/-- the elite part of `Rosomaxa::add_all` on fitness values: only individuals not worse than the best known are
-    offered to the elite; `Elitism::add_all` returns early on an empty offer -/
+/-- `Rosomaxa::add_all`: only individuals not worse than the best known one are offered to the elite
+    (`total_order(individual, best_known) != Greater`), all of them while the elite is empty -/
+def eliteCandidates (elite offered : List Int) : List Int :=
+  match elite.head? with
+  | none => offered
+  | some best => offered.filter (fun f => decide (f ≤ best))
+
+/-- the elite part of `Rosomaxa::add_all` on fitness values; `Elitism::add_all` returns early on an empty offer -/
 def popAddElite (norm : List Int → List Int) (cap : Nat) (elite offered : List Int) : List Int :=
-  let cand := match elite.head? with
-    | none => offered
-    | some best => offered.filter (fun f => decide (f ≤ best))
-  if cand.isEmpty then elite else elitismAdd norm cap elite cand
+  if (eliteCandidates elite offered).isEmpty then elite
+  else elitismAdd norm cap elite (eliteCandidates elite offered)
 
 /-! ## phases -/
 
